@@ -193,6 +193,20 @@ func (e *Exec) evalExternal(call *ast.CallExpr, st *State, ctx *Ctx) []string {
 		return []string{"(str.to_code (str.at " + s + " " + i + "))"}
 	case "unicode.IsLower":
 		return []string{"(isLowerRune " + arg(0) + ")"}
+	case "gopkg.in/yaml.v3.Unmarshal":
+		// yaml.Unmarshal(bytes, &x) with x of type any: an uninterpreted deterministic parse (assumed contract)
+		if len(call.Args) == 2 {
+			if u, ok := call.Args[1].(*ast.UnaryExpr); ok && u.Op.String() == "&" {
+				if id, ok := u.X.(*ast.Ident); ok {
+					if v, ok := info.ObjectOf(id).(*types.Var); ok && isAny(v.Type()) {
+						src := arg(0)
+						e.note("yaml.Unmarshal into an `any` is an uninterpreted deterministic function of the text (yamlParseF / yamlParseE)")
+						st.env[v] = "(yamlParseF " + src + ")"
+						return []string{"(yamlParseE " + src + ")"}
+					}
+				}
+			}
+		}
 	case "os.Exit":
 		e.evalArgs(call, st, ctx)
 		return nil
